@@ -139,6 +139,17 @@ Fixpoint parse_l (toks : list token) (st : pstate) (pairs : list (nat * token)) 
   end.
 
 Definition parse_argv (toks : list token) : presult := parse_l toks Normal [] [].
+
+(* parseCommandLine(argc, argv, ...): parses argv[1..argc) and rewrites argv to argv[0] followed by the remaining
+   arguments (argv[argc] = 0); an exception leaves argv as it was *)
+Definition command_line (argv : list token) : presult * list token :=
+  match argv with
+  | [] => (parse_argv [], [])
+  | a0 :: args => match parse_argv args with
+                  | POk ps rem => (POk ps rem, a0 :: rem)
+                  | PErr e => (PErr e, argv)
+                  end
+  end.
 End Parser.
 
 (* ---- CommandStringParser::next ---- *)
@@ -175,6 +186,11 @@ Fixpoint tokenize_f (fuel : nat) (l : list Z) : list token :=
            end
   end.
 Definition tokenize (l : list Z) : list token := tokenize_f (S (length l)) l.
+
+(* parseCommandString: the same parser over the tokens that CommandStringParser::next() delivers *)
+Definition parse_string (c : ctx) (attrs : list attr) (allow_unreg : bool) (pos : option (token -> option (list Z)))
+                        (allow_flag_value : bool) (cmd : list Z) : presult :=
+  parse_argv c attrs allow_unreg pos allow_flag_value (tokenize cmd).
 
 (* ---- CfgFileParser ---- *)
 Fixpoint mem (x : Z) (l : list Z) : bool := match l with [] => false | y :: r => (x =? y) || mem x r end.
@@ -316,11 +332,17 @@ Definition run_case (l : list Z) : list Z :=
                           if (mode =? 0) || (mode =? 1) then
                             match r6 with
                             | nt :: r7 => let '(toks, _) := get_toks (Z.to_nat nt) r7 in
-                                          enc_res (mode =? 0) (parse_argv c attrs allow_b p afv toks)
+                                          if mode =? 0 then
+                                            let '(r, argv') := command_line c attrs allow_b p afv ([112; 114; 111; 103] :: toks) in
+                                            match r with
+                                            | POk ps _ => 0 :: enc_pairs ps ++ enc_toks (tl argv')
+                                            | PErr e => [err_code e]
+                                            end
+                                          else enc_res false (parse_argv c attrs allow_b p afv toks)
                             | [] => []
                             end
                           else if mode =? 2 then
-                            let '(s, _) := get_str r6 in enc_res false (parse_argv c attrs allow_b p afv (tokenize s))
+                            let '(s, _) := get_str r6 in enc_res false (parse_string c attrs allow_b p afv s)
                           else
                             let '(s, _) := get_str r6 in enc_res false (parse_cfg c allow_b s)
                       end
